@@ -21,6 +21,8 @@ import (
 
 var collidingWindows [][2]string // 5-byte lower-case strings with equal FastHash
 var collidingHosts [][2]string   // host names with equal FastHash
+var collidingDNSTexts [][2]string // host-level rule texts "||a.ar^$..." (sequential table) with equal FastHash
+var collidingDNSHosts [][2]string // ... and their host names
 var collidingSeqTexts [][2]string // rule texts "/xyz^" (sequential table: shortcut shorter than 5) with equal FastHash
 
 func findCollisions() {
@@ -54,6 +56,37 @@ func findCollisions() {
 					collidingSeqTexts = append(collidingSeqTexts, [2]string{o, s})
 				}
 				seenT[h] = s
+			}
+		}
+	}
+	// host-level rule texts with a shortcut shorter than 5 bytes (sequential table of the DNS engine) that collide as
+	// whole texts: birthday search over "||<c>.<1-2 chars>^[$modifier]" in a fixed enumeration order
+	seenD := map[uint32][2]string{}
+	dmods := []string{"", "$important", "$dnstype=A", "$dnstype=CNAME", "$client=Mom", "$ctag=device_pc", "$dnstype=~AAAA", "$denyallow=x.io", "$dnstype=MX", "$client=Dad", "$badfilter", "$dnstype=TXT"}
+	var tails []string
+	for a := 0; a < len(al); a++ {
+		tails = append(tails, string(al[a]))
+	}
+	for a := 0; a < len(al); a++ {
+		for b := 0; b < len(al); b++ {
+			tails = append(tails, string(al[a])+string(al[b]))
+		}
+	}
+dsearch:
+	for a := 0; a < len(al); a++ {
+		for _, t := range tails {
+			host := string(al[a]) + "." + t
+			for _, m := range dmods {
+				txt := "||" + host + "^" + m
+				h := filterutil.FastHash(txt)
+				if o, ok := seenD[h]; ok && o[1] != host && !strings.Contains(o[0], "badfilter") && !strings.Contains(txt, "badfilter") {
+					collidingDNSTexts = append(collidingDNSTexts, [2]string{o[0], txt})
+					collidingDNSHosts = append(collidingDNSHosts, [2]string{o[1], host})
+					if len(collidingDNSTexts) >= 12 {
+						break dsearch
+					}
+				}
+				seenD[h] = [2]string{txt, host}
 			}
 		}
 	}
@@ -409,6 +442,15 @@ func init() {
 			for i := 0; i < engines; i++ {
 				ls, _ := genStorage(g, dnsLine, 40)
 				var reqs []Req
+				if g.Chance(1, 3) {
+					// two DIFFERENT host-level rules of the sequential table whose whole texts have the same hash, in either
+					// order, and requests for both names
+					k := g.Intn(len(collidingDNSTexts))
+					p, hs := collidingDNSTexts[k], collidingDNSHosts[k]
+					o := g.Intn(2)
+					ls[0].content = p[o] + "\n" + ls[0].content + p[1-o] + "\n"
+					reqs = append(reqs, Req{Kind: "host", Hostname: hs[0]}, Req{Kind: "host", Hostname: hs[1]}, Req{Kind: "host", Hostname: "x." + hs[1-o], DNSType: 1})
+				}
 				for j := 0; j < nreq; j++ {
 					r := Req{Kind: "host", Hostname: Pick(g, hostsNames)}
 					switch g.Intn(5) {
